@@ -17,6 +17,18 @@ UNIT = 0.03
 HANG_S = 12.0
 
 
+def pre(res):
+    """regenerate Gen/ParMapQ.lean (queue constructors and the put-all-then-get-all structure of __call__) from the source; fail closed"""
+    from gen import gen_parmap
+
+    try:
+        changed = gen_parmap.main()
+        res.extra["generated"] = {"file": "lean/HypnoModel/Gen/ParMapQ.lean", "changed_since_last_run": bool(changed)}
+    except Exception as e:
+        res.extra["generated"] = {"error": "%s: %s" % (type(e).__name__, e)}
+        res.gen_error = "%s: %s" % (type(e).__name__, e)
+
+
 def serial_outcome(s):
     out = []
     for t in s["tasks"]:
